@@ -635,8 +635,22 @@ func init() {
 		x.Add(&Family{Name: "agreement-concurrent", Quick: 200, Thor: 2000, Run: func(c *Case) { c19Agreement(c, thor) }})
 		x.Add(&Family{Name: "post-fault", Quick: 250, Thor: 4000, Run: func(c *Case) { c19PostFault(c) }})
 		x.Add(&Family{Name: "board-reload", Quick: 120, Thor: 1500, Run: func(c *Case) { c19BoardReload(c, thor) }})
+		for _, f := range c19ExtraFamilies { // families registered by the other c19_*.go files
+			f(x)
+		}
+		if only := os.Getenv("VERIF_ONLY_FAMILY"); only != "" { // development aid: run one family
+			var keep []*Family
+			for _, f := range x.families {
+				if f.Name == only {
+					keep = append(keep, f)
+				}
+			}
+			x.families = keep
+		}
 	}
 }
+
+var c19ExtraFamilies []func(x *Ctx)
 
 // ---------------------------------------------------------------- post-format
 
